@@ -9,6 +9,7 @@ import (
 	"sort"
 	"strings"
 
+	apifu "github.com/ccbrown/api-fu"
 	"github.com/ccbrown/api-fu/graphql"
 
 	"verifharness/internal/sexp"
@@ -118,6 +119,7 @@ func (v jv) sexp(sortLists bool, key string) sexp.Node {
 
 type side struct {
 	schema   *graphql.Schema
+	api      *apifu.API // when set, requests go through API.ServeGraphQL instead
 	features graphql.FeatureSet
 	log      *calls
 }
@@ -146,19 +148,20 @@ func locsSexp(ls [][2]int) sexp.Node {
 	return sexp.T("locs", out...)
 }
 
-func (s *side) run(query string, vars map[string]interface{}) *observation {
-	o := &observation{}
-	_, verrs := graphql.ParseAndValidate(query, s.schema, s.features)
-	for _, e := range verrs {
-		o.verrs = append(o.verrs, locsOf(e.Locations))
+func errLocs(e jv) [][2]int {
+	var locs [][2]int
+	if l, ok := e.get("locations"); ok {
+		for _, x := range l.vals {
+			var a, c int
+			fmt.Sscan(x.str("line"), &a)
+			fmt.Sscan(x.str("column"), &c)
+			locs = append(locs, [2]int{a, c})
+		}
 	}
-	s.log.log = nil
-	resp := graphql.Execute(&graphql.Request{Context: context.Background(), Query: query, Schema: s.schema, Features: s.features, VariableValues: vars})
-	o.calls = s.log.log
-	b, err := json.Marshal(resp)
-	if err != nil {
-		panic(fmt.Sprintf("response does not marshal: %v", err))
-	}
+	return locs
+}
+
+func (o *observation) readResponse(b []byte) {
 	o.raw = parseJSON(b)
 	if d, ok := o.raw.get("data"); ok {
 		o.data = &d
@@ -171,19 +174,29 @@ func (s *side) run(query string, vars map[string]interface{}) *observation {
 					path = append(path, c.sexp(false, ""))
 				}
 			}
-			var locs [][2]int
-			if l, ok := e.get("locations"); ok {
-				for _, x := range l.vals {
-					var a, c int
-					fmt.Sscan(x.str("line"), &a)
-					fmt.Sscan(x.str("column"), &c)
-					locs = append(locs, [2]int{a, c})
-				}
-			}
-			o.errs = append(o.errs, sexp.T("err", sexp.T("path", path...), locsSexp(locs)))
+			o.errs = append(o.errs, sexp.T("err", sexp.T("path", path...), locsSexp(errLocs(e))))
 		}
 		sort.Slice(o.errs, func(i, j int) bool { return o.errs[i].String() < o.errs[j].String() })
 	}
+}
+
+func (s *side) run(query string, vars map[string]interface{}) *observation {
+	if s.api != nil {
+		return s.runHTTP(query, vars)
+	}
+	o := &observation{}
+	_, verrs := graphql.ParseAndValidate(query, s.schema, s.features)
+	for _, e := range verrs {
+		o.verrs = append(o.verrs, locsOf(e.Locations))
+	}
+	s.log.log = nil
+	resp := graphql.Execute(&graphql.Request{Context: context.Background(), Query: query, Schema: s.schema, Features: s.features, VariableValues: vars})
+	o.calls = s.log.log
+	b, err := json.Marshal(resp)
+	if err != nil {
+		panic(fmt.Sprintf("response does not marshal: %v", err))
+	}
+	o.readResponse(b)
 	return o
 }
 
